@@ -340,4 +340,13 @@ example : (2 : Nat) ^ 53 ≤ decVal ([57,48,48,55,49,57,57,50,53,52,55,52,48,57,
 
 example : toF64 [45, 49, 50] = .ok 0xC028000000000000 := by rfl   -- "-12" = -12.0
 
+/-- **The independent meaning of "correctly rounded"** (audit follow-up): `C11_f64_correctly_rounded` concludes
+`= rneBits N 10^k`, and `rneBits` is the model's own rounding function, used both for the two hardware operations and
+for the specification, so that theorem alone shows that the two roundings collapse into one.  What `rneBits` MEANS is
+this statement, independent of its definition: the result is the encoding of `q·2^e` with `2^52 ≤ q ≤ 2^53`, `e` the
+first-guess exponent or one more, and `|num/den − q·2^e| ≤ 2^e / 2` (half an ulp, cross-multiplied so that no
+subtraction or division occurs).  Ties-to-even among the two candidates at exactly half an ulp is not characterised
+separately (it is the definition's choice and is tied to the hardware by the correspondence on boundary inputs). -/
+theorem C11_rne_within_half_ulp : type_of% @rneBits_half_ulp := @rneBits_half_ulp
+
 end Jomini.Props.C11
